@@ -61,7 +61,13 @@ func stageDump(it *models.Item) string {
 	rec = func(n *models.Item) {
 		canon := ""
 		if n.GetURL().GetParsed() != nil {
-			canon = n.GetURL().String()
+			if n.GetStatus() == models.ItemFresh {
+				// observing must not disturb: String() caches its first result, and a fresh node has not been normalised yet
+				// (only a seed as the source hands it over is parsed and fresh; the model shows its text as given)
+				canon = n.GetURL().Raw
+			} else {
+				canon = n.GetURL().String()
+			}
 		}
 		req := 0
 		if n.GetURL().GetRequest() != nil {
